@@ -1,6 +1,7 @@
 package main
 
 import (
+	"golang.org/x/tools/go/ssa"
 	"fmt"
 	"go/ast"
 	"go/token"
@@ -15,8 +16,8 @@ func init() {
 	registerProperty(&PropertyInfo{
 		ID:    "C17",
 		Title: "Scores obey the BM25 laws and explanations derive the score",
-		Rules: []string{"C17.R1", "C17.R2", "C17.R3"},
-		Decides: "explanation faithfulness as an algebraic identity over the source expressions (narrow claim): for every scorer, the expression returned by Score/ScoreComposite and the value handed to the explanation returned by Explain/ExplainComposite are the same rational function of the scorer's fields and arguments (per branch, with the branch condition substituted); for every explanation whose message quotes a formula ('computed as <formula> from:') the formula, with its symbols bound to the children by the leading symbol of their messages, is the same rational function as the node's value, and a 'sum of:' node carries the sum over exactly the constituents whose explanations are its children; every searcher that builds a match assigns Score from the explanation's Value on the explain branch and from the scorer called with the same arguments otherwise.",
+		Rules: []string{"C17.R1", "C17.R2", "C17.R3", "C17.R4"},
+		Decides: "explanation faithfulness as an algebraic identity over the source expressions (narrow claim): for every scorer, the expression returned by Score/ScoreComposite and the value handed to the explanation returned by Explain/ExplainComposite are the same rational function of the scorer's fields and arguments (per branch, with the branch condition substituted); for every explanation whose message quotes a formula ('computed as <formula> from:') the formula, with its symbols bound to the children by the leading symbol of their messages, is the same rational function as the node's value, and a 'sum of:' node carries the sum over exactly the constituents whose explanations are its children; every searcher that builds a match assigns Score from the explanation's Value on the explain branch and from the scorer called with the same arguments otherwise. the children list of an explanation does not share its backing array with a field or package variable.",
 		NotCovered: "positivity, finiteness and monotonicity of the scores in the statistics (numeric), floating-point rounding (the identity is over the reals).",
 	})
 	registerRule(&RuleInfo{ID: "C17.R1", Title: "Score and Explain compute the same expression", Floor: 3, Run: ruleC17R1, Covers: "every Scorer / CompositeScorer implementation"})
@@ -162,7 +163,7 @@ func ruleC17R1(c *Ctx) {
 			}
 			var problems []string
 			for _, r := range erets {
-				call, ok := r.values[0].(*ast.CallExpr)
+				call, ok := r.env.resolveExpr(r.values[0]).(*ast.CallExpr)
 				if !ok {
 					problems = append(problems, "a return of "+pairs[i][1]+" is not an explanation literal")
 					continue
@@ -379,7 +380,7 @@ func ruleC17R2(c *Ctx) {
 				for _, kd := range kids {
 					var sym string
 					var rf ratFunc
-					switch x := kd.expr.(type) {
+					switch x := menv.resolveExpr(kd.expr).(type) {
 					case *ast.CallExpr:
 						v, m, _, err := menv.explanationOfCall(x)
 						if err != nil {
@@ -449,81 +450,189 @@ func rfStringOrErr(rf ratFunc, err error) string {
 }
 
 func ruleC17R3(c *Ctx) {
-	pk := c.All[pkgSearcher]
-	if pk == nil {
-		panic(unresolvedAnchor{"package " + pkgSearcher})
-	}
-	n := 0
-	for _, f := range pk.Syntax {
-		for _, d := range f.Decls {
-			fd, ok := d.(*ast.FuncDecl)
-			if !ok || fd.Body == nil {
+	// On the type-checked SSA form (independent of how the branches are written): in every
+	// function of the searcher package that assigns DocumentMatch.Score,
+	//  - a score taken from an explanation is that match's own Explanation.Value, and the
+	//    explanation stored there comes from S.Explain*(args);
+	//  - a score computed directly comes from S.Score*(args);
+	//  - the function has both, from the same scorer S with the same arguments and with
+	//    related methods (Explain/Score, ExplainComposite/ScoreComposite).
+	fScore := c.Field(pkgSearch, "DocumentMatch", "Score")
+	fExpl := c.Field(pkgSearch, "DocumentMatch", "Explanation")
+	fValue := c.Field(pkgSearch, "Explanation", "Value")
+	for _, fn := range c.FuncsIn(pkgSearcher) {
+		type scoreStore struct {
+			st   *ssa.Store
+			call ssa.CallInstruction // the Explain* / Score* call it derives from
+			kind string              // "explain" | "plain" | "other"
+		}
+		var stores []scoreStore
+		explStores := map[string]*ssa.Call{} // access path of the match -> explain call stored into its Explanation
+		eachInstr(fn, func(in ssa.Instruction) {
+			st, ok := in.(*ssa.Store)
+			if !ok {
+				return
+			}
+			fa, ok := st.Addr.(*ssa.FieldAddr)
+			if !ok || fieldVar(fa) != fExpl {
+				return
+			}
+			if call, ok := st.Val.(*ssa.Call); ok {
+				explStores[matchKey(fa.X)] = call
+			}
+		})
+		eachInstr(fn, func(in ssa.Instruction) {
+			st, ok := in.(*ssa.Store)
+			if !ok {
+				return
+			}
+			fa, ok := st.Addr.(*ssa.FieldAddr)
+			if !ok || fieldVar(fa) != fScore {
+				return
+			}
+			ss := scoreStore{st: st, kind: "other"}
+			if call, ok := st.Val.(*ssa.Call); ok {
+				if n := callMethodName(call.Common()); n == "Score" || n == "ScoreComposite" {
+					ss.kind, ss.call = "plain", call
+				}
+			} else if f, base := loadedField(st.Val); f == fValue {
+				if f2, m := loadedField(base); f2 == fExpl && matchKey(m) == matchKey(fa.X) {
+					if call := explStores[matchKey(fa.X)]; call != nil {
+						if n := callMethodName(call.Common()); n == "Explain" || n == "ExplainComposite" {
+							ss.kind, ss.call = "explain", call
+						}
+					}
+				}
+			}
+			stores = append(stores, ss)
+		})
+		if len(stores) == 0 {
+			continue
+		}
+		key := "explain and plain score agree in " + FuncName(fn)
+		var problems []string
+		var ex, pl *scoreStore
+		for i := range stores {
+			switch stores[i].kind {
+			case "explain":
+				ex = &stores[i]
+			case "plain":
+				pl = &stores[i]
+			default:
+				// scores copied or accumulated from other matches are not this rule's business
+				if _, isCall := stores[i].st.Val.(*ssa.Call); isCall {
+					problems = append(problems, "a score is assigned at "+c.Pos(stores[i].st.Pos())+" from a call that is neither Score* nor an explanation's Value")
+				}
+			}
+		}
+		if ex == nil && pl == nil {
+			if len(problems) == 0 {
 				continue
 			}
-			ast.Inspect(fd.Body, func(nd ast.Node) bool {
-				ifs, ok := nd.(*ast.IfStmt)
-				if !ok {
-					return true
-				}
-				sel, ok := ifs.Cond.(*ast.SelectorExpr)
-				if !ok || sel.Sel.Name != "Explain" {
-					return true
-				}
-				n++
-				key := "explain and plain branch agree in " + fd.Name.Name + " (" + recvName(fd) + ")"
-				// then: X.Explanation = S.Explain*(args); X.Score = X.Explanation.Value ; else: X.Score = S.Score*(args)
-				var explainCall, scoreCall *ast.CallExpr
-				scoreFromValue := false
-				for _, st := range ifs.Body.List {
-					as, ok := st.(*ast.AssignStmt)
-					if !ok || len(as.Lhs) != 1 || len(as.Rhs) != 1 {
-						continue
-					}
-					lhs := types.ExprString(as.Lhs[0])
-					if strings.HasSuffix(lhs, ".Explanation") {
-						explainCall, _ = as.Rhs[0].(*ast.CallExpr)
-					}
-					if strings.HasSuffix(lhs, ".Score") && strings.HasSuffix(types.ExprString(as.Rhs[0]), ".Explanation.Value") {
-						scoreFromValue = strings.TrimSuffix(lhs, ".Score") == strings.TrimSuffix(types.ExprString(as.Rhs[0]), ".Explanation.Value")
+		} else if ex == nil || pl == nil {
+			problems = append(problems, "the function assigns the score only on one of the two ways (from the explanation's Value / from the scorer): with and without explanations the score is produced differently")
+		} else {
+			ec, pc := ex.call.Common(), pl.call.Common()
+			en, pn := callMethodName(ec), callMethodName(pc)
+			if !(en == "Explain" && pn == "Score" || en == "ExplainComposite" && pn == "ScoreComposite") {
+				problems = append(problems, "the two ways call unrelated methods "+en+" / "+pn)
+			}
+			er, ea := recvAndArgs(ec)
+			pr, pa := recvAndArgs(pc)
+			if !sameExpr(er, pr, 0) {
+				problems = append(problems, "the two ways use different scorers")
+			}
+			if len(ea) != len(pa) {
+				problems = append(problems, "the two ways pass different arguments")
+			} else {
+				for i := range ea {
+					if !sameExpr(ea[i], pa[i], 0) {
+						problems = append(problems, fmt.Sprintf("argument %d differs between the explained and the plain score", i+1))
 					}
 				}
-				if blk, ok := ifs.Else.(*ast.BlockStmt); ok {
-					for _, st := range blk.List {
-						as, ok := st.(*ast.AssignStmt)
-						if ok && len(as.Lhs) == 1 && len(as.Rhs) == 1 && strings.HasSuffix(types.ExprString(as.Lhs[0]), ".Score") {
-							scoreCall, _ = as.Rhs[0].(*ast.CallExpr)
-						}
-					}
-				}
-				var problems []string
-				if explainCall == nil || scoreCall == nil {
-					problems = append(problems, "the function does not have the shape `if Explain { X.Explanation = S.Explain(..); X.Score = X.Explanation.Value } else { X.Score = S.Score(..) }`")
-				} else {
-					if !scoreFromValue {
-						problems = append(problems, "on the explain branch the score is not taken from the explanation's Value")
-					}
-					es, ok1 := explainCall.Fun.(*ast.SelectorExpr)
-					ss, ok2 := scoreCall.Fun.(*ast.SelectorExpr)
-					if !ok1 || !ok2 || types.ExprString(es.X) != types.ExprString(ss.X) {
-						problems = append(problems, "the two branches use different scorers")
-					} else if !(es.Sel.Name == "Explain" && ss.Sel.Name == "Score" || es.Sel.Name == "ExplainComposite" && ss.Sel.Name == "ScoreComposite") {
-						problems = append(problems, "the two branches call unrelated methods "+es.Sel.Name+" / "+ss.Sel.Name)
-					}
-					if len(explainCall.Args) != len(scoreCall.Args) {
-						problems = append(problems, "the two branches pass different arguments")
-					} else {
-						for i := range explainCall.Args {
-							if types.ExprString(explainCall.Args[i]) != types.ExprString(scoreCall.Args[i]) {
-								problems = append(problems, "argument "+fmt.Sprint(i+1)+" differs between the branches: "+types.ExprString(explainCall.Args[i])+" vs "+types.ExprString(scoreCall.Args[i]))
-							}
-						}
-					}
-				}
-				c.Check(len(problems) == 0, key, c.Pos(ifs.Pos()), "Score = Explanation.Value on the explain branch; same scorer and arguments on the other", uniqJoin(problems))
-				return true
-			})
+			}
 		}
+		c.Check(len(problems) == 0, key, c.Pos(fn.Pos()), "Score = Explanation.Value of S.Explain*(args) when explaining, S.Score*(args) otherwise: same scorer, same arguments", uniqJoin(problems))
 	}
+}
+
+func matchKey(v ssa.Value) string {
+	if p := accessPath(v); p != "" {
+		return p
+	}
+	return "val:" + v.Name()
+}
+
+func callMethodName(cc *ssa.CallCommon) string {
+	if cc.IsInvoke() {
+		return cc.Method.Name()
+	}
+	if f := cc.StaticCallee(); f != nil {
+		return f.Name()
+	}
+	return ""
+}
+
+func recvAndArgs(cc *ssa.CallCommon) (ssa.Value, []ssa.Value) {
+	if cc.IsInvoke() {
+		return cc.Value, cc.Args
+	}
+	if f := cc.StaticCallee(); f != nil && f.Signature.Recv() != nil && len(cc.Args) > 0 {
+		return cc.Args[0], cc.Args[1:]
+	}
+	return nil, cc.Args
+}
+
+// sameExpr: two SSA values denote the same expression (go/ssa performs no CSE): identical
+// value, equal access paths, or calls of the same method on the same receiver with the same
+// arguments (getters such as termMatch.Frequency()).
+func sameExpr(a, b ssa.Value, d int) bool {
+	if a == b {
+		return true
+	}
+	if a == nil || b == nil || d > 6 {
+		return false
+	}
+	if pa, pb := accessPath(a), accessPath(b); pa != "" && pa == pb {
+		return true
+	}
+	switch x := a.(type) {
+	case *ssa.Call:
+		y, ok := b.(*ssa.Call)
+		if !ok || callMethodName(x.Common()) != callMethodName(y.Common()) || callMethodName(x.Common()) == "" {
+			return false
+		}
+		xr, xa := recvAndArgs(x.Common())
+		yr, ya := recvAndArgs(y.Common())
+		if (xr == nil) != (yr == nil) || xr != nil && !sameExpr(xr, yr, d+1) || len(xa) != len(ya) {
+			return false
+		}
+		for i := range xa {
+			if !sameExpr(xa[i], ya[i], d+1) {
+				return false
+			}
+		}
+		return true
+	case *ssa.Convert:
+		y, ok := b.(*ssa.Convert)
+		return ok && sameExpr(x.X, y.X, d+1)
+	case *ssa.ChangeType:
+		y, ok := b.(*ssa.ChangeType)
+		return ok && sameExpr(x.X, y.X, d+1)
+	case *ssa.MakeInterface:
+		y, ok := b.(*ssa.MakeInterface)
+		return ok && sameExpr(x.X, y.X, d+1)
+	case *ssa.UnOp:
+		y, ok := b.(*ssa.UnOp)
+		return ok && x.Op == y.Op && sameExpr(x.X, y.X, d+1)
+	case *ssa.FieldAddr:
+		y, ok := b.(*ssa.FieldAddr)
+		return ok && x.Field == y.Field && sameExpr(x.X, y.X, d+1)
+	case *ssa.Phi:
+		// the same variable at the same program point
+		return false
+	}
+	return false
 }
 
 func recvName(fd *ast.FuncDecl) string {
